@@ -77,7 +77,7 @@ class Loop:
     def cmdib(self):
         return self.consumer_mdibs[0]
 
-    def wait_synced(self, timeout=3.0):
+    def wait_synced(self, timeout=20.0):
         t0 = time.time()
         want = self.pmdib.mdib_version
         while time.time() - t0 < timeout:
